@@ -811,7 +811,14 @@ class Run:
                 self.held_ids.add(id(child))
                 if child.widget_info:
                     wi = child.widget_info
-                    self.held.append((child, snap(child), f"{type(wi[0]).__name__} canvas {wi[1]} focus {wi[2]} inside [{desc}]"))
+                    try:
+                        cs = snap(child)
+                    except Exception:  # noqa: BLE001
+                        # content() of an inner canvas is not always defined (0-column text canvas inside a
+                        # padded parent ...): such a canvas cannot be snapshotted, only kept alive
+                        self.keep.append(child)
+                    else:
+                        self.held.append((child, cs, f"{type(wi[0]).__name__} canvas {wi[1]} focus {wi[2]} inside [{desc}]"))
                 else:
                     self.keep.append(child)  # keeps id() unique
                 stack.append(child)
@@ -1091,6 +1098,24 @@ _op = st.one_of(
 )
 _op = st.tuples(st.sampled_from(["", "", "", "", "~"]), _op).map(lambda t: [t[0] + t[1][0], *t[1][1:]])
 
+_mut4 = st.tuples(_n, _arg, _arg, _arg)
+_ag3 = st.tuples(_arg, _arg, _arg)
+_vw = st.tuples(_si, st.booleans())
+# short correlated sequences (flattened into the op list): change without redraw / resize or refocus / change again;
+# two views, a change, back to the first view; repeated changes of one widget
+_pattern = st.one_of(
+    st.tuples(_mut4, _vw, _ag3).map(lambda t: [["~mut", *t[0]], ["view", *t[1]], ["again", *t[2]]]),
+    st.tuples(_vw, _vw, _mut4, _vw).map(lambda t: [["view", *t[0]], ["view", *t[1]], ["mut", *t[2]], ["view", *t[0]], ["view", *t[3]]]),
+    st.tuples(_mut4, _ag3, _ag3).map(lambda t: [["mut", *t[0]], ["again", *t[1]], ["again", *t[2]]]),
+)
+
+
+def _ops(max_ops):
+    one = _op.map(lambda o: [o])
+    return st.lists(st.one_of(one, one, one, one, one, one, _pattern), min_size=2, max_size=max_ops).map(
+        lambda ll: [o for chunk in ll for o in chunk][:max_ops])
+
+
 _wh = st.tuples(st.one_of(st.integers(1, 24), st.integers(4, 16)), st.one_of(st.integers(1, 10), st.integers(2, 6))).map(list)
 
 
@@ -1103,7 +1128,7 @@ def _cases(max_depth, max_ops):
                 "spec": st.integers(1, max_depth).flatmap(lambda d: G.widget(m, d, enc)),
                 "sizes": st.lists(_wh, min_size=2, max_size=3),
                 "hold": st.sampled_from(["all", "last", "last"]),
-                "ops": st.lists(_op, min_size=2, max_size=max_ops),
+                "ops": _ops(max_ops),
             })
 
         return st.sampled_from(["box", "box", "box", "flow", "flow", "fixed"]).flatmap(for_mode)
@@ -1126,7 +1151,7 @@ def shard(ctx):
     global _CTX
     _CTX = ctx
     try:
-        ctx.given("hist", _cases(ctx.scale(3, 4), ctx.scale(25, 60)), ctx.scale(300, 5000),
+        ctx.given("hist", _cases(ctx.scale(3, 4), ctx.scale(25, 60)), ctx.scale(500, 5000),
                   nontrivial=lambda c: False, classify=_classes)
     finally:
         _CTX = None
@@ -1190,19 +1215,29 @@ def _repair_columns_hidden_pack():
 
 
 def _repair_scrollable_adjust():
-    """Scrollable._adjust_trim_top(): a position changed while rendering invalidates the canvases cached before"""
-    orig = urwid.Scrollable._adjust_trim_top
+    """Scrollable.render(): a scroll position changed while rendering (clamped for this size, moved to the cursor,
+    reset to 0 because the content fits) invalidates the canvases cached before"""
+    cls = urwid.Scrollable
+    orig = cls.__dict__["render"]
 
-    def _adjust_trim_top(self, canv, size):
-        old = self._trim_top
-        orig(self, canv, size)
-        if self._trim_top != old:
+    def render(self, size, focus=False):
+        if canv := urwid.CanvasCache.fetch(self, cls, size, focus):
+            return canv
+        before = self._trim_top
+        canv = orig.original_fn(self, size, focus)
+        if self._trim_top != before:
             self._invalidate()
+        if canv.widget_info:
+            canv = urwid.CompositeCanvas(canv)
+        canv.finalize(self, size, focus)
+        urwid.CanvasCache.store(cls, canv)
+        return canv
 
-    urwid.Scrollable._adjust_trim_top = _adjust_trim_top
+    render.original_fn = orig.original_fn
+    cls.render = render
 
     def undo():
-        urwid.Scrollable._adjust_trim_top = orig
+        cls.render = orig
 
     return undo
 
